@@ -254,6 +254,38 @@ var rElide = &Rule{
 			}
 			return true, truth
 		}
+		// the test may reach a helper as a boolean parameter (`multiCause bool`): it is the same test when every call
+		// site of the region passes one
+		isMultiTestP := func(l lit) (bool, bool) {
+			if is, truth := isMultiTest(l); is {
+				return is, truth
+			}
+			prm, isParam := l.V.(*ssa.Parameter)
+			if !isParam {
+				return false, false
+			}
+			h := prm.Parent()
+			pi := paramIndex(h, prm)
+			sites := reg.sites[h]
+			if pi < 0 || len(sites) == 0 {
+				return false, false
+			}
+			var truth, first = false, true
+			for _, site := range sites {
+				if pi >= len(site.Call.Args) {
+					return false, false
+				}
+				is, t := isMultiTest(lit{V: site.Call.Args[pi]})
+				if !is || (!first && t != truth) {
+					return false, false
+				}
+				truth, first = t, false
+			}
+			if l.Neg {
+				truth = !truth
+			}
+			return true, truth
+		}
 		nForeign := 0
 		reg.each(func(in ssa.Instruction) {
 			call, ok := in.(*ssa.Call)
@@ -270,7 +302,7 @@ var rElide = &Rule{
 				return
 			}
 			nForeign++
-			ok = mustReachAssuming(call, isMultiTest, func(x ssa.Instruction) bool {
+			ok = mustReachAssuming(call, isMultiTestP, func(x ssa.Instruction) bool {
 				cl, isCall := x.(*ssa.Call)
 				return isCall && sx.Callee(cl) == elide
 			})
